@@ -62,6 +62,15 @@ register("C08", "proof",
          TB + "IC10 token semantics (HASH = signed CRC-32 of UTF-8 bytes, STR = big-endian byte packing, bare enum names resolved by operand position) is a hand-written specification; names contain no double quote.",
          "Lean 4 proof (case analysis + numeral round-trip induction) + model/code correspondence + loader-model comparison of real outputs", "DESIGN.md §4 C08")
 
+register("C09", "proof",
+         "Proved in Lean for all inputs: every integer literal the transpiler prints (decimal or $HEX, any set of prefab hashes) reads back as itself (formatInt_roundtrip); the version note changes at most one "
+         "line, only by appending, keeps that line within 90 characters and is a trailing comment to the loader (version_note_*). Both models are tied to utils.format_int / get_code by exact-text correspondence. "
+         "NOT a theorem: that every compiled program is grammatical — this part is decided per output by the loader model PV.IC10.Parse (hand-written opcode signature table, operand kinds, register/device "
+         "spellings, no placeholders) run on every real output of shipped programs, generated programs and a literal grid under random option vectors; float literals are checked by CPython (plain decimal, "
+         "16 significant digits). Known findings F-C03-c, F-C09-a/b/c/d, F-C05-a are printed from their witnesses.",
+         TB + "the IC10 grammar PV.IC10.Spec / Parse is a hand-written specification; Lean's Float printing is opaque so float formatting is differential only.",
+         "Lean 4 proof for numerals and version note + loader-model (grammar) evaluation of real outputs", "DESIGN.md §4 C09")
+
 ALL = [f"C{i:02d}" for i in range(1, 19)]
 
 
